@@ -17,7 +17,7 @@ run_demo() {
     return $rc
   elif [ -d "$D/demo" ]; then
     rm -rf /tmp/seed_demo_dir; cp -r "$D/demo" /tmp/seed_demo_dir
-    sed -i "s#=> /tmp/mut2\?-[A-Za-z0-9]*#=> $WT#" /tmp/seed_demo_dir/go.mod
+    sed -i "s#=> /tmp/mut[0-9]*-[A-Za-z0-9]*#=> $WT#" /tmp/seed_demo_dir/go.mod
     (cd /tmp/seed_demo_dir && if [ -x run.sh ]; then ./run.sh; else go run .; fi) >/tmp/seed_demo.log 2>&1; rc=$?
     rm -rf /tmp/seed_demo_dir
     return $rc
